@@ -209,3 +209,24 @@ Section Deflate.
     zinflate (deflate_write_session lvl calls) = Some (List.concat calls).
   Proof. intros. apply zlib_roundtrip. Qed.
 End Deflate.
+
+(** * position bookkeeping of hcomp.c (HCPseek origin handling, HCPread length rule; expressions regenerated) *)
+Lemma seek_origin_lemma : forall origin off pos len, In origin [DF_START; DF_CURRENT; DF_END] ->
+  seek_target origin off pos len = Some (hcp_seek_offset origin off pos len) /\
+  (hcp_seek_rejects (hcp_seek_offset origin off pos len) = true <->
+   match seek_target origin off pos len with Some t => t < 0 | None => True end).
+Proof.
+  intros origin off pos len [<-|[<-|[<-|[]]]]; unfold seek_target, hcp_seek_offset, hcp_seek_rejects, DF_START, DF_CURRENT, DF_END;
+    cbn [Z.eqb Pos.eqb]; (split; [f_equal; ring | rewrite Z.ltb_lt; lia]).
+Qed.
+
+Lemma read_rule_lemma : forall n pos len, 0 <= pos <= len -> 0 <= n ->
+  let k := if n =? 0 then len - pos else n in
+  hcp_read_length n pos len = k /\ hcp_read_rejects n pos len = negb ((0 <=? k) && (pos + k <=? len)).
+Proof.
+  intros n pos len Hp Hn k. subst k. unfold hcp_read_length, hcp_read_rejects.
+  destruct (Z.eqb_spec n 0) as [->|Hne]; split; try reflexivity.
+  - destruct (Z.leb_spec 0 (len - pos)); [|lia]. destruct (Z.leb_spec (pos + (len - pos)) len); [reflexivity|lia].
+  - destruct (Z.ltb_spec n 0); [lia|]. destruct (Z.leb_spec 0 n); [|lia]. cbn [orb andb].
+    destruct (Z.ltb_spec len (pos + n)); destruct (Z.leb_spec (pos + n) len); try reflexivity; lia.
+Qed.
